@@ -15,3 +15,4 @@ driver("verif_child", variant="plain", lib=False)
 driver("drv_expect", variant="plain")
 driver("drv_mathvec", variant="asan")
 driver("drv_timefmt", variant="plain")
+driver("drv_textenc", variant="asan")
